@@ -145,7 +145,7 @@ func (g *gen) num() int64 {
 
 func (g *gen) strVal(kinds ...string) Val {
 	if len(kinds) == 0 {
-		kinds = []string{KStr, KStr, KStr, KPStr, KNullStr, KValuer, KPValuer, KBytes, KHash, KRaw}
+		kinds = []string{KStr, KStr, KStr, KPStr, KNullStr, KValuer, KPValuer, KBytes, KHash, KRaw, KVSlice}
 	}
 	return Val{K: kinds[g.pick("strkind", len(kinds))], S: g.str()}
 }
@@ -181,7 +181,7 @@ func (g *gen) scalar(class string, nilPct int) Val {
 	case "bool":
 		return Val{K: KBool, B: g.pct("b", 50)}
 	case "time":
-		return Val{K: KTime, I: int64(g.next())*3600 + int64(g.payload("sec", 3600))}
+		return Val{K: g.oneOf("timekind", KTime, KTime, KNullTime), I: int64(g.next())*3600 + int64(g.payload("sec", 3600))}
 	}
 	switch g.weighted("anyclass", 45, 30, 8, 5, 12) {
 	case 0:
@@ -215,6 +215,10 @@ func (g *gen) slice(class string, allowEmpty, typedOnly bool) Val {
 	n := lo + g.pick("slicelen", max-lo+1)
 	if n > 1 && g.pct("shortslice", 35) {
 		n = 1 + g.pick("short", 2)
+	}
+	big := g.pct("bigslice", 1) && class != "float"
+	if big {
+		n = 1100 // more values than any preallocated buffer, four-digit placeholder numbers
 	}
 	var v Val
 	switch class {
@@ -254,6 +258,14 @@ func (g *gen) slice(class string, allowEmpty, typedOnly bool) Val {
 				v.L = append(v.L, g.scalar("int", 10))
 			} else {
 				v.L = append(v.L, Val{K: KInt, I: g.num()})
+			}
+		}
+	}
+	if big && len(v.L) == 1100 {
+		// ten-digit sentinels: the seven-digit space is too small for this many distinct numbers
+		for i := range v.L {
+			if v.L[i].K != KStr && !v.L[i].NilLike() && v.L[i].S == "" {
+				v.L[i].I = 3000000000 + int64(g.next())*1201 + int64(i)
 			}
 		}
 	}
@@ -836,7 +848,16 @@ func (g *gen) conds(sc scope, n int, inGroup bool) []Cond {
 			if g.pct("clauses2", 50) {
 				l.Sub = append(l.Sub, g.leafCl(sc))
 			}
-			out = append(out, Cond{Op: "clauses", U: Unit{Form: "clause", Cl: &l}})
+			op := "clauses"
+			if g.pct("aswhereclause", 40) {
+				op = "whereclause" // Clauses(clause.Where{Exprs: …}) merges the expressions as they are
+			}
+			out = append(out, Cond{Op: op, U: Unit{Form: "clause", Cl: &l}})
+			continue
+		}
+		if !inGroup && sc.depth == 0 && g.pct("asscope", 6) {
+			// Scopes(func(db) { return db.Where(…) }): applied when the finisher runs
+			out = append(out, Cond{Op: "scope", U: g.unit(sc, "having")})
 			continue
 		}
 		out = append(out, Cond{Op: op, U: u})
@@ -929,10 +950,10 @@ func (g *gen) query() *Chain {
 		c.Joins = append(c.Joins, j)
 		sc.qual = "items."
 	}
-	fins := []string{"find", "first", "take", "last", "count", "pluck", "scan"}
-	fw := []int{34, 12, 8, 5, 15, 10, 16}
+	fins := []string{"find", "first", "take", "last", "count", "pluck", "scan", "row", "rows", "batches"}
+	fw := []int{30, 11, 7, 5, 14, 9, 12, 4, 4, 4}
 	if !sc.model {
-		fw[1], fw[3] = 0, 0
+		fw[1], fw[3], fw[9] = 0, 0, 0
 	}
 	c.Fin = fins[g.weighted("fin", fw...)]
 	grouped := false
@@ -960,6 +981,15 @@ func (g *gen) query() *Chain {
 			}
 			c.Having = &u
 		}
+	}
+	if c.Fin == "batches" {
+		// FindInBatches(dest, n, fn): typed destination, its own ORDER BY key and LIMIT n
+		c.FindBatch = int(g.num())
+		c.Conds = g.conds(sc, g.weighted("nconds", 10, 30, 30, 20, 10), false)
+		return c
+	}
+	if !grouped && g.pct("distinct", 8) {
+		c.Distinct = true
 	}
 	if !grouped && g.pct("select", 28) {
 		scol, _ := g.col(sc, "str")
@@ -1111,6 +1141,10 @@ func (g *gen) update() *Chain {
 		c.Unscoped = true
 	}
 	lo := 1
+	if g.pct("allowglobal", 8) {
+		c.AllowGlobal = true // a write without any condition is then permitted
+		lo = 0
+	}
 	if c.ModelID != 0 {
 		lo = 0
 	}
@@ -1129,6 +1163,10 @@ func (g *gen) update() *Chain {
 	default:
 		r := g.rec(sc.table, 35, true)
 		c.SetRec = &r
+		c.SetPtr = g.pct("setptr", 30)
+	}
+	if g.pct("updcols", 15) {
+		g.restrictColumns(c, sc.table)
 	}
 	// RETURNING scans the updated rows back into the typed model: only with typed (struct) values
 	if c.SetRec != nil && g.pct("returning", 25) {
@@ -1152,6 +1190,10 @@ func (g *gen) delete() *Chain {
 		c.Unscoped = true
 	}
 	lo := 1
+	if g.pct("allowglobal", 8) {
+		c.AllowGlobal = true
+		lo = 0
+	}
 	if g.pct("delrec", 25) {
 		id := 1 + int64(g.pick("did", 3))
 		if g.pct("bigid", 40) {
@@ -1230,6 +1272,7 @@ func (g *gen) create() *Chain {
 			r.ID = newID(i)
 			c.Rows = append(c.Rows, r)
 		}
+		c.PtrElems = g.pct("ptrelems", 30)
 		if g.pct("batched", 55) {
 			c.Batch = g.oneOf("batchkind", "inbatches", "session", "config")
 			c.BatchSize = 1 + g.pick("batchsize", 3) // shorter, equal and longer slices all occur
@@ -1240,7 +1283,9 @@ func (g *gen) create() *Chain {
 			keys, vals = withID(keys, vals, newID(0))
 		}
 		c.MapRows = []MapRow{{Keys: keys, Vals: vals}}
+		c.MapPtr = g.pct("mapptr", 30)
 	default:
+		c.MapPtr = g.pct("mapptr", 30)
 		n := 2 + g.pick("nmaps", 2)
 		for i := 0; i < n; i++ {
 			keys, vals := g.setMap(sc, 1+g.weighted("nkeys", 35, 40, 25), false)
@@ -1250,7 +1295,61 @@ func (g *gen) create() *Chain {
 			c.MapRows = append(c.MapRows, MapRow{Keys: keys, Vals: vals})
 		}
 	}
+	if c.Conflict == nil && g.pct("crcols", 15) {
+		g.restrictColumns(c, table)
+	}
 	return c
+}
+
+// restrictColumns draws Select(cols…) / Omit(cols…) for a create or update so
+// that at least one supplied value is still written.
+func (g *gen) restrictColumns(c *Chain, table string) {
+	var supplied []string // columns the chain gives a value for
+	switch {
+	case c.SetRec != nil:
+		for i, f := range c.SetRec.F {
+			if f != nil {
+				supplied = append(supplied, columnsOf(table)[i].name)
+			}
+		}
+	case len(c.SetKeys) > 0:
+		supplied = c.SetKeys
+	case len(c.MapRows) > 0:
+		supplied = c.MapRows[0].Keys
+	default:
+		for _, col := range columnsOf(table) {
+			supplied = append(supplied, col.name)
+		}
+	}
+	var plain []string
+	for _, col := range columnsOf(table) {
+		plain = append(plain, col.name)
+	}
+	keep := supplied[g.pick("keepcol", len(supplied))]
+	if keep == "id" {
+		return
+	}
+	perm := rapid.Permutation(plain).Draw(g.t, "restrictcols")
+	n := 1 + g.pick("nrestrict", 3)
+	if g.pct("omitmode", 45) {
+		c.ColMode = "omit"
+		for _, col := range perm {
+			if col != keep && len(c.Cols) < n {
+				c.Cols = append(c.Cols, col)
+			}
+		}
+		if len(c.Cols) == 0 {
+			c.ColMode = ""
+		}
+		return
+	}
+	c.ColMode = "select"
+	c.Cols = []string{keep}
+	for _, col := range perm {
+		if col != keep && len(c.Cols) < n {
+			c.Cols = append(c.Cols, col)
+		}
+	}
 }
 
 // save: Save(&struct) (insert without key, update of every column with one) and Save(&slice) (upsert).
@@ -1273,6 +1372,7 @@ func (g *gen) save() *Chain {
 			r.ID = id(i)
 			c.Rows = append(c.Rows, r)
 		}
+		c.PtrElems = g.pct("ptrelems", 30)
 		return c
 	}
 	c.CrKind = "struct"
@@ -1281,6 +1381,8 @@ func (g *gen) save() *Chain {
 	c.Rows = []Rec{r}
 	return c
 }
+
+// NOTE: Save(&[]*X) is drawn in save() through PtrElems.
 
 // firstOr: FirstOrInit / FirstOrCreate with a struct condition that matches no seeded row.
 func (g *gen) firstOr() *Chain {
@@ -1292,6 +1394,15 @@ func (g *gen) firstOr() *Chain {
 		r.F[0] = g.fieldVal(columnsOf(table)[0].kind) // a sentinel string: the condition matches no seeded row
 	}
 	c.Rows = []Rec{r}
+	if g.pct("attrs", 35) {
+		a := g.rec(table, 35, true)
+		c.Attrs = &a
+	}
+	if g.pct("assign", 20) {
+		a := g.rec(table, 35, true)
+		c.Assign = &a
+	}
+	c.WithModel = g.pct("withmodel", 30)
 	return c
 }
 
